@@ -15,8 +15,6 @@ def ofE {α : Type} (r : E α) : Prog α :=
 def lock (k : Iri) : Prog Unit := .call (.lock k) ofE
 /-- `Unlock`'s result is ignored everywhere in `pub` -/
 def unlock (k : Iri) : Prog Unit := .call (.unlock k) fun _ => .ret ()
-/-- a `Lock` whose result is ignored (federating follow, F6c) -/
-def lockIgnoring (k : Iri) : Prog Unit := .call (.lock k) fun _ => .ret ()
 def inboxContains (inbox id : Iri) : Prog Bool := .call (.inboxContains inbox id) ofE
 def getInbox (i : Iri) : Prog J := .call (.getInbox i) ofE
 def setInbox (v : J) : Prog Unit := .call (.setInbox v) ofE
@@ -63,5 +61,10 @@ def now : Prog (Int × Int) := .call .now .ret
 def writeHeader (code : Nat) : Prog Unit := .call (.writeHeader code) .ret
 def setHeader (k v : String) : Prog Unit := .call (.setHeader k v) .ret
 def writeBody (b : J) : Prog Bool := .call (.writeBody b) ofE
+
+/-- `Lock(k); x, err := body; Unlock(k); if err != nil { return err }` — the hand-written
+"unlock on every branch" sequences of `pub` -/
+def locked (k : Iri) (body : Prog α) : Prog α :=
+  lock k >>= fun _ => Prog.try_ body >>= fun r => unlock k >>= fun _ => ofE r
 
 end AV.Op
